@@ -327,9 +327,10 @@ namespace msgpack {
                         n.divide(millis_in_second, q, rem, true);
                         auto seconds = static_cast<int64_t>(q);
                         auto nanoseconds = static_cast<int64_t>(rem) * nanos_in_milli;
-                        if (nanoseconds < 0)
+                        if (nanoseconds < 0) // a timestamp is seconds + nanoseconds with 0 <= nanoseconds < 10^9
                         {
-                            nanoseconds = -nanoseconds; 
+                            seconds -= 1;
+                            nanoseconds += nanos_in_second;
                         }
                         write_timestamp(seconds, nanoseconds);
                     }
@@ -355,9 +356,10 @@ namespace msgpack {
                         n.divide(nanos_in_second, q, rem, true);
                         auto seconds = static_cast<int64_t>(q);
                         auto nanoseconds = static_cast<int64_t>(rem);
-                        if (nanoseconds < 0)
+                        if (nanoseconds < 0) // a timestamp is seconds + nanoseconds with 0 <= nanoseconds < 10^9
                         {
-                            nanoseconds = -nanoseconds; 
+                            seconds -= 1;
+                            nanoseconds += nanos_in_second;
                         }
                         write_timestamp(seconds, nanoseconds);
                     }
@@ -552,9 +554,10 @@ namespace msgpack {
                         auto dv = std::div(val,millis_in_second);
                         int64_t seconds = dv.quot;
                         int64_t nanoseconds = dv.rem*nanos_in_milli;
-                        if (nanoseconds < 0)
+                        if (nanoseconds < 0) // a timestamp is seconds + nanoseconds with 0 <= nanoseconds < 10^9
                         {
-                            nanoseconds = -nanoseconds; 
+                            seconds -= 1;
+                            nanoseconds += nanos_in_second;
                         }
                         write_timestamp(seconds, nanoseconds);
                     }
@@ -571,9 +574,10 @@ namespace msgpack {
                         auto dv = std::div(val,static_cast<int64_t>(nanos_in_second));
                         int64_t seconds = dv.quot;
                         int64_t nanoseconds = dv.rem;
-                        if (nanoseconds < 0)
+                        if (nanoseconds < 0) // a timestamp is seconds + nanoseconds with 0 <= nanoseconds < 10^9
                         {
-                            nanoseconds = -nanoseconds; 
+                            seconds -= 1;
+                            nanoseconds += nanos_in_second;
                         }
                         write_timestamp(seconds, nanoseconds);
                     }
@@ -673,9 +677,10 @@ namespace msgpack {
                         auto dv = std::div(static_cast<int64_t>(val), static_cast<int64_t>(millis_in_second));
                         int64_t seconds = dv.quot;
                         int64_t nanoseconds = dv.rem*nanos_in_milli;
-                        if (nanoseconds < 0)
+                        if (nanoseconds < 0) // a timestamp is seconds + nanoseconds with 0 <= nanoseconds < 10^9
                         {
-                            nanoseconds = -nanoseconds; 
+                            seconds -= 1;
+                            nanoseconds += nanos_in_second;
                         }
                         write_timestamp(seconds, nanoseconds);
                     }
@@ -692,9 +697,10 @@ namespace msgpack {
                         auto dv = std::div(static_cast<int64_t>(val), static_cast<int64_t>(nanos_in_second));
                         int64_t seconds = dv.quot;
                         int64_t nanoseconds = dv.rem;
-                        if (nanoseconds < 0)
+                        if (nanoseconds < 0) // a timestamp is seconds + nanoseconds with 0 <= nanoseconds < 10^9
                         {
-                            nanoseconds = -nanoseconds; 
+                            seconds -= 1;
+                            nanoseconds += nanos_in_second;
                         }
                         write_timestamp(seconds, nanoseconds);
                     }
